@@ -1147,6 +1147,11 @@ def generic_rules(prop, index, rep):
     with rep.section(rid8):
         ne_ = swallowed_error_rule(index, rep, rid8, mods)
         rep.ob(rid8, "src/dendropy", "%d pass-only handlers examined" % ne_, True, nontrivial=ne_ > 0)
+    rid9 = "R%s.C" % prop[1:]
+    rep.rule(rid9, "the library's own errors can be raised: every construction of a repository exception class in the property's modules passes keywords and positionals that the __init__ in effect along its MRO accepts")
+    with rep.section(rid9):
+        nc_ = exception_ctor_rule(index, rep, rid9, mods)
+        rep.ob(rid9, "src/dendropy", "%d constructions of repository exception classes examined" % nc_, True, nontrivial=nc_ > 0)
     rid2 = "R%s.V" % prop[1:]
     rep.rule(rid2, "right variable in nested loops: an inner loop over a collection derived from the outer item uses its own item")
     with rep.section(rid2):
@@ -1479,4 +1484,45 @@ def one_pass_iterable_rule(index, rep, rid, functions, param_names):
                     bad = bad or x
             rep.check(bad is None, rid, f.qualname, "iterable argument `%s` walked repeatedly" % p_, fn_where(f, bad if bad is not None else f.node), "%s walks `%s` once (or materialises it first)" % (f.qualname, p_),
                       "%s uses its argument `%s` in a repeated context (`%s`) without first turning it into a container: the documentation admits any iterable, and a generator / filter() / map() is empty after the first pass - asked to keep A, C and E the operation then keeps A only (or extracts a single leaf), while the same call with a list is right" % (f.qualname, p_, norm(pm.get(bad))[:60] if bad is not None else ""))
+    return n
+
+
+def exception_ctor_rule(index, rep, rid, modules):
+    """Every construction of one of the library's own error classes passes arguments its constructor accepts: the
+    __init__ found along the class's MRO (inside the repository) has a parameter for each keyword (or **kwargs) and
+    room for the positional arguments - otherwise raising the documented error dies with a TypeError instead."""
+    n = 0
+    by_name = {}
+    for k in index.classes.values():
+        by_name.setdefault(k.name, []).append(k)
+    for m in modules:
+        for f in index.functions_in_module(m):
+            for c in calls_in(f.node, nested=True):
+                nm = call_name(c)
+                ks = by_name.get(nm, [])
+                if len(ks) != 1 or not (isinstance(c.func, ast.Name) or (isinstance(c.func, ast.Attribute) and not norm(c.func.value).startswith("self"))):
+                    continue
+                k = ks[0]
+                if "Exception" not in _exc_ancestors(index, k.name, None) and "BaseException" not in _exc_ancestors(index, k.name, None):
+                    continue
+                init = None
+                for b in index.mro(k):
+                    if "__init__" in b.methods:
+                        init = b.methods["__init__"]
+                        break
+                if init is None:
+                    continue        # the builtin constructor takes anything positional
+                a = init.node.args
+                names = [x.arg for x in a.posonlyargs + a.args][1:] + [x.arg for x in a.kwonlyargs]
+                n += 1
+                if any(isinstance(x, ast.Starred) for x in c.args) or any(kw.arg is None for kw in c.keywords):
+                    continue
+                badkw = [kw.arg for kw in c.keywords if kw.arg not in names and a.kwarg is None]
+                toomany = len(c.args) > len(a.posonlyargs + a.args) - 1 and a.vararg is None
+                required = [x.arg for x in (a.posonlyargs + a.args)[1:len(a.posonlyargs + a.args) - len(a.defaults)]]
+                missing = [r for i, r in enumerate(required) if i >= len(c.args) and r not in {kw.arg for kw in c.keywords}]
+                rep.check(not badkw and not toomany and not missing, rid, f.qualname, "%s(...) does not fit %s" % (k.name, init.qualname.split(".")[-2] + ".__init__"), fn_where(f, c), "",
+                          "%s builds `%s`, but the constructor in effect for %s is %s%s: %s - raising the documented parse error then itself fails with a TypeError, which is what the caller sees" % (
+                              f.qualname, norm(c)[:70], k.name, init.qualname, "(" + ", ".join(names) + ")",
+                              "; ".join(x for x in ["it has no parameter %s" % badkw if badkw else "", "too many positional arguments" if toomany else "", "required %s not given" % missing if missing else ""] if x)))
     return n
